@@ -278,7 +278,8 @@ struct RefsWorld : World {
 					reference_array<metatype> *ra2 = 0; item_array<metatype> *ia = 0;
 					if (items) { Sut su; ia = new item_array<metatype>(); } else { Sut su; ra2 = new reference_array<metatype>(); }
 					long held[3] = {0, 0, 0};
-					for (int k = 0; k < 10; ++k) {
+					const int steps = (op.c & 4) ? 16 : 10;      // the longer episodes push a reference_array beyond its first allocation chunk
+					for (int k = 0; k < steps; ++k) {
 						x = x * 1664525u + 1013904223u;
 						int o = (int) ((x >> 20) % 3); unsigned act = (x >> 12) % 6;
 						if (!alive(o) || model[o] != 1) continue;
@@ -313,6 +314,26 @@ struct RefsWorld : World {
 							fail("count-mismatch", "object %d counts %ld references, %ld expected while a C++ %s holds %ld", i, obj[i]->refs, before[i] + held[i], items ? "item_array" : "reference_array", held[i]);
 						check_pending();
 					}
+					if (!items && (op.c & 8)) {
+						// a second handle on the same entries: such a buffer must never be copied byte-wise (each entry owns a reference),
+						// so changing it through one handle while the other exists is refused, and nothing changes
+						reference_array<metatype> *cp; { Sut su; cp = new reference_array<metatype>(*ra2); }
+						long n0 = ra2->length(); int o = 0; while (o < 3 && (!alive(o) || model[o] != 1)) ++o;
+						if (o < 3 && n0 > 0) {
+							uintptr_t r; { Sut su; r = obj[o]->addref(); }
+							if (r) {
+								bool ok; { Sut su; ok = cp->insert(0, obj[o]); }
+								log.ev("    insert through a second handle on %ld shared entries -> %d", n0, (int) ok); st.hit("probe:reference_array_shared_insert");
+								if (ok) ++held[o]; else { Sut su; obj[o]->unref(); }
+								for (int i = 0; i < 3; ++i) if (before[i] >= 0 && alive(i) && obj[i]->refs != before[i] + held[i])
+									fail("count-mismatch", "object %d counts %ld references, %ld expected after an insert through a second handle of a reference_array (%s)", i, obj[i]->refs, before[i] + held[i], ok ? "accepted" : "refused");
+							}
+						}
+						{ Sut su; delete cp; }
+						for (int i = 0; i < 3; ++i) if (before[i] >= 0 && alive(i) && obj[i]->refs != before[i] + held[i])
+							fail("count-mismatch", "object %d counts %ld references, %ld expected after the second handle of a reference_array went away", i, obj[i]->refs, before[i] + held[i]);
+						check_pending();
+					}
 					if (items) { Sut su; delete ia; } else { Sut su; delete ra2; }
 				}
 				check_pending();
@@ -324,7 +345,18 @@ struct RefsWorld : World {
 			}
 			case OP_BUF_CLONE: {
 				// three handles on one library buffer: alive iff some handle refers to it
-				int h = (int) (op.c % 3), h2 = (int) ((op.c / 3) % 3); int v = (int) (op.b % 3);
+				int h = (int) (op.c % 3), h2 = (int) ((op.c / 3) % 3); int v = (int) (op.b % 4);
+				if (v == 3) {
+					// the handle asks for a private buffer (same kind, or retyped to characters): it lets go of the one it shared
+					const void *was = bufh[h].buf; long holders = 0; for (auto &x : bufh) if (was && x.buf == was) ++holders;
+					if (!was) break;
+					const type_traits *tt = (op.c & 16) ? mpt_type_traits('c') : 0;
+					buffer *nb; { Sut su(failn); nb = mpt_array_reserve(AR(bufh[h]), 8 + (size_t) (op.c % 40), tt); if (g.fired) st.hit("fault:allocfail"); }
+					log.ev("BUFFER handle %d reserve%s (buffer had %ld holders) -> %s", h, tt ? " as characters" : "", holders, nb ? (nb == was ? "same buffer" : "new buffer") : "null");
+					if (nb && nb != was) { bool freed = !ledger_covers(was); if ((holders == 1) != freed) fail(freed ? "destroyed-early" : "never-destroyed", "buffer with %ld holders %s after one handle moved to a private buffer", holders, freed ? "was freed" : "stayed allocated"); st.hit("probe:reserve_left_shared_buffer"); }
+					if (nb && nb == was && holders > 1) fail("still-shared", "reserve handed out a buffer that %ld handles share", holders);
+					outcome = 3; break;
+				}
 				if (v == 0 && !bufh[h].buf) { { Sut su(failn); bufh[h].buf = _mpt_buffer_alloc(16, 0); if (g.fired) st.hit("fault:allocfail"); } log.ev("BUFFER new in handle %d -> %s", h, bufh[h].buf ? "ok" : "null"); }
 				else if (v == 1) { const void *was = bufh[h].buf; long holders = 0; for (auto &x : bufh) if (x.buf == was) ++holders;
 					int rc; { Sut su; rc = mpt_array_clone(AR(bufh[h]), AR(bufh[h2])); }
